@@ -498,13 +498,16 @@ theorem readAndCutFast_eq_readAndCutStr (o : Opt) (fo : FastOpt) (ho : fastOptOf
     without delimiter, `lastInteresting = .some 0 = curr_field`, the fake end is not pushed, and the
     fast path panics where the general path prints the record -/
 example :
-    let bounds : UserBoundsList :=
-      { list := [.bound { l := .some 0, r := .some 0, isLast := true }], lastInteresting := .some 0 }
-    let o : Opt := { delimiter := [45], bounds := bounds }
-    let fo : FastOpt := { delimiter := 45, join := false, eol := .newline, bounds := bounds,
-                          onlyDelimited := false, trim := none, fallbackOob := none }
-    fromVec [.bound { l := .some 0, r := .some 0 }] = .ok bounds ∧ fastOptOf o = some fo ∧
-    readAndCutFast fo [120, 10] = Run.panic ∧ readAndCutStr o [120, 10] = Run.ok [120, 10] := by
+    fromVec [.bound { l := .some 0, r := .some 0 }] =
+      .ok { list := [.bound { l := .some 0, r := .some 0, isLast := true }],
+            lastInteresting := .some 0 } ∧
+    (fastOptOf { delimiter := [45], bounds :=
+        { list := [.bound { l := .some 0, r := .some 0, isLast := true }],
+          lastInteresting := .some 0 } }).map (fun fo => readAndCutFast fo [120, 10])
+      = some Run.panic ∧
+    readAndCutStr { delimiter := [45], bounds :=
+        { list := [.bound { l := .some 0, r := .some 0, isLast := true }],
+          lastInteresting := .some 0 } } [120, 10] = Run.ok [120, 10] := by
   decide
 
 end Tuc
